@@ -308,15 +308,19 @@ func (r *RootApp) Run() error {
 			return err
 		}
 
+		// Parameters that apply to the output file as a whole are taken from
+		// the fully-merged config of the mocks that share the file, so that
+		// they can be set at any level of the config hierarchy.
+		fileConfig := interfacesInFile.interfaces[0].Config
 		generator, err := pkg.NewTemplateGenerator(
 			fileCtx,
 			interfacesInFile.srcPkg,
 			interfacesInFile.outFilePath.Parent(),
-			*packageConfig.Config.Template,
-			*packageConfig.Config.TemplateSchema,
-			*packageConfig.Config.RequireTemplateSchemaExists,
+			*fileConfig.Template,
+			*fileConfig.TemplateSchema,
+			*fileConfig.RequireTemplateSchemaExists,
 			remoteTemplateCache,
-			pkg.Formatter(*r.Config.Formatter),
+			pkg.Formatter(*fileConfig.Formatter),
 			packageConfig.Config,
 			interfacesInFile.outPkgName,
 		)
@@ -340,8 +344,8 @@ func (r *RootApp) Run() error {
 			fileLog.Err(err).Msg("can't determine if outfile exists")
 			return fmt.Errorf("determining if outfile exists: %w", err)
 		}
-		if outFileExists && !*packageConfig.Config.ForceFileWrite {
-			fileLog.Error().Bool("force-file-write", *packageConfig.Config.ForceFileWrite).Msg("output file exists, can't write mocks")
+		if outFileExists && !*fileConfig.ForceFileWrite {
+			fileLog.Error().Bool("force-file-write", *fileConfig.ForceFileWrite).Msg("output file exists, can't write mocks")
 			return fmt.Errorf("outfile exists")
 		}
 
